@@ -156,12 +156,15 @@ def make_goal(spec, times, base=None):
     path = spec["path"]
     tpoint = None if path else times[spec["ti"]]
 
+    offs = spec.get("offset") or [0.0] * size
+
     class G(base):
         def function(self, pr, m):
             if path:
-                es = [pr.state(v) for v in vars_]
+                es = [pr.state(v) + o if o else pr.state(v) for v, o in zip(vars_, offs)]
             else:
-                es = [pr.state_at(v, tpoint, ensemble_member=m) for v in vars_]
+                es = [pr.state_at(v, tpoint, ensemble_member=m) + o if o else pr.state_at(v, tpoint, ensemble_member=m)
+                      for v, o in zip(vars_, offs)]
             return es[0] if size == 1 else ca.vertcat(*es)
 
     g = G()
@@ -475,13 +478,15 @@ def capture(pr, priority):
                     for key, v in fm.items():
                         forms[(gi, m) + key] = v
                 else:
+                    offs = s.get("offset") or [0.0] * size
                     for cc, v in enumerate(s["vars"]):
                         if path:
                             for t in range(T):
-                                forms[(gi, m, cc, t)] = linform(pr.state_at(v, times[t], ensemble_member=m), X)
+                                a, k0 = linform(pr.state_at(v, times[t], ensemble_member=m), X)
+                                forms[(gi, m, cc, t)] = (a, k0 + offs[cc])
                         else:
-                            forms[(gi, m, cc, None)] = linform(
-                                pr.state_at(v, times[s["ti"]], ensemble_member=m), X)
+                            a, k0 = linform(pr.state_at(v, times[s["ti"]], ensemble_member=m), X)
+                            forms[(gi, m, cc, None)] = (a, k0 + offs[cc])
     cap["forms"] = forms
     cap["layout_ok"] = layout_ok
     cap["results"] = [{v: np.array(r[v], dtype=float).copy() for v in VARS} for r in res]
